@@ -1,8 +1,13 @@
 (* C07 -- placement calls return or throw; never crash or invoke undefined behaviour.
 
+   The property itself is OBSERVED, not proved: no theorem below is about an entry point.
    What a theorem carries here: the arithmetic of the single-row legalizer
-   (RowLegalizer::getDisplacement -- the code in which signed overflow was found at design time, F2a),
-   through a list of its C++-typed intermediate values over the ideal model (RowLegMachine.v).
+   (RowLegalizer::getDisplacement -- the code in which signed overflow was found at design time, F2a)
+   and of the further integer cores below, each through a HAND-WRITTEN list of its C++-typed intermediate
+   values over the ideal model (the *Machine.v files).  Every "Forall fits (.._vals ..)" theorem is
+   conditional on the completeness of that list: no listed value is compared with the code, an omitted
+   operation cannot be detected (std::min / std::max, loop counters, size_t arithmetic, values read back
+   from queues, CSR counters are not listed).
    What it cannot carry: memory safety and termination of the compiled artefact and of Eigen / lemon /
    boost / libstdc++, assertion reachability in the float code.  Those are OBSERVED by ./check C07
    (ASan + UBSan builds with assertions on and off, magnitude and degenerate-shape streams). *)
@@ -184,7 +189,9 @@ Require Import CV.Transp1d CV.Transp1dProofs CV.Transp1dTerm CV.Transp1dMachine 
 
 (* t1d_dom pb: positions within [-2^59, 2^59], supplies and demands >= 0 with totals <= 2^61, fewer than 2^31 - 1
    sources + sinks, vector lengths consistent.  (The rough legalizer feeds positions scaled to about 10^8 * x / width
-   and supplies = cell areas < 2^31: far inside.) *)
+   and supplies = cell areas < 2^31: far inside -- an informal remark: the float-to-long-long scaling
+   std::round(factor * cellTargetX) of improveX/YTransport has no listing, and t1d_dom constrains values that come out
+   of the continuous solver; the precondition is not discharged.) *)
 (* [F] balanceDemand() followed by assign() -- totalSupply/totalDemand, balanceDemand, check, the sorter, setupData,
    run (updateOptimalSink, pushNewSourceEvents incl. delta, pushNewSinkEvents, the push loop: pushOnce, getSlope's
    running sums, pushToLastSink, pushToNewSink), flushPositions, computeAssignment: every listed int / long long
